@@ -8,7 +8,7 @@
    Oracles: the LP solver and the mirror heuristic are arguments; NO hypothesis is placed on their answers.
    Numbers are exact rationals: overflow / underflow / division by a zero coefficient (from_mats' debug assertion on
    non-normal floats) are outside the model; * and / are covered at the level of shapes (any coefficient-wise fo). *)
-From AT Require Import Num Vec Aff PTree Ops Cells Abs Cache Reduce Elim CPrune Schema WfC ElimWf CPruneWf OpsWf History HistoryEx.
+From AT Require Import Num Vec Aff PTree Ops Cells Abs Cache Reduce Elim CPrune Schema WfC ElimWf CPruneWf OpsWf History HistoryEx D11Wf.
 
 (* ---- the predicate, in the property's words, and that it is decidable on a dump ---- *)
 (* cwf n m t: every node function is a well-shaped map on R^n; a node flagged as terminal holds a function with
@@ -87,6 +87,24 @@ Theorem C04_compose_incompatible_panics : forall tol o n m t pr g kk m',
   cwft n m t -> pwf kk m' g -> pexists g = true -> kk <> m -> step tol o (OCompose pr g) t = HPanic.
 Proof. exact step_compose_panics. Qed.
 
+(* ---- D11, the code as found (before /repo 73c1a4e and c6b3980: no "never remove the last remaining child"):
+        the preservation theorems are refuted for both pruning loops.  from_poly of the empty polytope
+        {x <= 0, -x <= -1} without else-branch, main branch with two rows: elimination as found turns the root
+        into a terminal that holds the predicate x <= 0 (one row, common output dimension two); the repaired
+        elimination keeps the tree well-formed.  Likewise the prune branch of the composition. ---- *)
+Theorem C04_D11_elim_as_found_refuted :
+  erase d11_t = from_poly d11_P d11_f None /\ cwft 1 2 d11_t /\
+  fst (elim_v0 d11_o 0 d11_t) = CN 0 true (sc_rowf 1 [1] 0) Indet CU CU /\
+  ~ cwft 1 2 (fst (elim_v0 d11_o 0 d11_t)) /\
+  cwft 1 2 (fst (elim d11_o 0 d11_t)).
+Proof. exact elim_as_found_refuted. Qed.
+Theorem C04_D11_compose_as_found_refuted :
+  pwf 2 2 d11_g /\
+  fst (graftp_v0 d11_o 0 comp_schema d11_id2 d11_g false Indet 1 [] k0) = CN 1 true (sc_rowf 1 [1] 0) Indet CU CU /\
+  cwfb 1 2 (fst (graftp_v0 d11_o 0 comp_schema d11_id2 d11_g false Indet 1 [] k0)) = false /\
+  cwfb 1 2 (fst (graftp d11_o 0 comp_schema d11_id2 d11_g false Indet 1 [] k0)) = true.
+Proof. exact compose_as_found_refuted. Qed.
+
 (* ---- non-vacuity: partial_ReLU(1,0) with arena indices 0,1,2; a history in which an oracle that answers
         Infeasible on every even call makes the pruned composition drop edges, keep the last edge, and merge kept
         children into their parents; elimination removes a child of the root (forwarding refused there) and forwards
@@ -123,4 +141,6 @@ Print Assumptions C04_usable.
 Print Assumptions C04_result_is_operand.
 Print Assumptions C04_apply_incompatible_panics.
 Print Assumptions C04_compose_incompatible_panics.
+Print Assumptions C04_D11_elim_as_found_refuted.
+Print Assumptions C04_D11_compose_as_found_refuted.
 Print Assumptions C04_nonvacuous.
